@@ -635,10 +635,10 @@ def bin_by_phase(ip, x, nbins=24, weights=None, variance_metric='variance',
                 (x[inds, ...] - np.repeat(avg[None, ii - 1, ...], np.sum(inds), axis=0))**2, axis=0)
         else:
             if inds.sum() > 0:
-                avg[ii - 1, ...] = np.average(x[inds, ...], axis=0,
-                                              weights=weights[inds].dot(np.ones((1, x.shape[1]))))
+                # one weight per sample, whatever the number of trailing dimensions of x
+                avg[ii - 1, ...] = np.average(x[inds, ...], axis=0, weights=weights[inds, 0])
                 v = np.average((x[inds, ...] - np.repeat(avg[None, ii - 1, ...], np.sum(inds), axis=0)**2),
-                               weights=weights[inds].dot(np.ones((1, x.shape[1]))), axis=0)
+                               weights=weights[inds, 0], axis=0)
             else:
                 v = np.nan
 
